@@ -179,6 +179,16 @@ type analysis struct {
 	vorder  []*types.Var
 	forder  []*types.Var
 	calls   []callEdge
+	copies  []copySite
+}
+
+// a stored copy of a struct value whose type carries references (`out := *o`,
+// `x := o` for a struct-valued o, `&o` of a by-value parameter or receiver):
+// the copy aliases everything the original's reference-typed fields point to
+type copySite struct {
+	typ, fn, file string
+	line          int
+	detail        string
 }
 
 // a call of a function that contains a store/alias site on shared structure
@@ -626,6 +636,7 @@ func calleeName(w *walker, c *ast.CallExpr) string {
 }
 
 func (w *walker) visit(n ast.Node) bool {
+	w.structCopies(n)
 	switch x := n.(type) {
 	case *ast.AssignStmt:
 		if x.Tok != token.DEFINE {
@@ -745,6 +756,112 @@ func (w *walker) externalArgs(c *ast.CallExpr) {
 		ent := w.a.fields[f]
 		ent.sites = append(ent.sites, w.mk("KEscape", c, "argument of "+name))
 	}
+}
+
+// trackedStruct: the named struct type (of the six packages, carrying references) of a value expression
+func (w *walker) trackedStruct(e ast.Expr) string {
+	tv, ok := w.p.info.Types[e]
+	if !ok || !tv.IsValue() || tv.Type == nil {
+		return ""
+	}
+	n, ok := tv.Type.(*types.Named)
+	if !ok || n.Obj().Pkg() == nil || !w.a.tracked[n.Obj().Pkg()] {
+		return ""
+	}
+	if _, ok := n.Underlying().(*types.Struct); !ok || !carriesRef(n, 0) {
+		return ""
+	}
+	return short(n.Obj().Pkg()) + "." + n.Obj().Name()
+}
+
+// copyOf: e is stored somewhere (assigned, returned, put in a literal, passed); if it denotes an
+// existing struct value (not a fresh literal or a call result) the store makes a shallow copy
+func (w *walker) copyOf(e ast.Expr, ctx string, at ast.Node) {
+	e = unparen(e)
+	switch x := e.(type) {
+	case *ast.StarExpr, *ast.Ident, *ast.SelectorExpr, *ast.IndexExpr:
+		if id, ok := x.(*ast.Ident); ok {
+			if _, isVar := w.p.info.Uses[id].(*types.Var); !isVar {
+				return
+			}
+		}
+		if t := w.trackedStruct(e); t != "" {
+			f, l := w.at(at)
+			form := "value"
+			if _, ok := x.(*ast.StarExpr); ok {
+				form = "*p"
+			}
+			w.a.copies = append(w.a.copies, copySite{typ: t, fn: w.fn, file: f, line: l, detail: form + " " + ctx})
+		}
+	}
+}
+
+func (w *walker) structCopies(n ast.Node) {
+	switch x := n.(type) {
+	case *ast.AssignStmt:
+		for _, r := range x.Rhs {
+			w.copyOf(r, "assigned", x)
+		}
+	case *ast.ValueSpec:
+		for _, r := range x.Values {
+			w.copyOf(r, "assigned", x)
+		}
+	case *ast.ReturnStmt:
+		for _, r := range x.Results {
+			w.copyOf(r, "returned", x)
+		}
+	case *ast.CompositeLit:
+		for _, el := range x.Elts {
+			if kv, ok := el.(*ast.KeyValueExpr); ok {
+				el = kv.Value
+			}
+			w.copyOf(el, "stored in composite literal", x)
+		}
+	case *ast.UnaryExpr:
+		if x.Op == token.AND {
+			if id, ok := unparen(x.X).(*ast.Ident); ok {
+				if v, ok := w.p.info.Uses[id].(*types.Var); ok && !v.IsField() && w.isParam(v) {
+					if t := w.trackedStruct(id); t != "" {
+						f, l := w.at(x)
+						w.a.copies = append(w.a.copies, copySite{typ: t, fn: w.fn, file: f, line: l, detail: "&param (address of the by-value copy)"})
+					}
+				}
+			}
+		}
+	}
+}
+
+// isParam: v is a parameter or receiver of the enclosing function declaration or literal
+func (w *walker) isParam(v *types.Var) bool {
+	check := func(ft *ast.FuncType, recv *ast.FieldList) bool {
+		lists := []*ast.FieldList{ft.Params, recv}
+		for _, fl := range lists {
+			if fl == nil {
+				continue
+			}
+			for _, f := range fl.List {
+				for _, nm := range f.Names {
+					if w.p.info.Defs[nm] == v {
+						return true
+					}
+				}
+			}
+		}
+		return false
+	}
+	for _, n := range w.stack {
+		switch d := n.(type) {
+		case *ast.FuncDecl:
+			if check(d.Type, d.Recv) {
+				return true
+			}
+		case *ast.FuncLit:
+			if check(d.Type, nil) {
+				return true
+			}
+		}
+	}
+	return false
 }
 
 func unparen(e ast.Expr) ast.Expr {
@@ -1053,6 +1170,14 @@ func (a *analysis) emit(out string) error {
 		fmt.Fprintf(&b, "\n  mkCall %s %s %s %d %s", coqStr(c.callee), coqStr(c.caller), coqStr(c.file), c.line, coqBool(c.init))
 	}
 	b.WriteString("\n].\n\n")
+	b.WriteString("Definition struct_copies : list copy_site := [")
+	for i, c := range a.copies {
+		if i > 0 {
+			b.WriteString(";")
+		}
+		fmt.Fprintf(&b, "\n  mkCopy %s %s %s %d %s", coqStr(c.typ), coqStr(c.fn), coqStr(c.file), c.line, coqStr(c.detail))
+	}
+	b.WriteString("\n].\n\n")
 	fmt.Fprintf(&b, "Definition table_counts : Z * Z * Z := (%d, %d, %d).\n", len(a.vorder), len(a.forder), nsites)
 	fmt.Fprintf(&b, "Definition translator_type_errors : Z := %d.\n", a.l.typeErrs)
 	old, err := os.ReadFile(out)
@@ -1078,7 +1203,7 @@ func diagnose(verif, run string) int {
 		return 1
 	}
 	src := "From Coq Require Import String List.\nFrom Otto Require Import C20.Facts C20.Audit C20.Shared.\n" +
-		"Definition F := Eval vm_compute in (failing_report pkg_vars struct_fields call_edges).\nPrint F.\n"
+		"Definition F := Eval vm_compute in (failing_report pkg_vars struct_fields call_edges struct_copies).\nPrint F.\n"
 	f := filepath.Join(dir, "Diag.v")
 	if err := os.WriteFile(f, []byte(src), 0o644); err != nil {
 		fmt.Println("diagnose:", err)
